@@ -22,6 +22,43 @@ use crate::{
     utils::file_or_mem_buf::FileOrMemBuf,
 };
 
+// ---- probes and taps ----------------------------------------------------------------------
+//
+// All parties of one harness run live on one thread, so the sinks are thread local.
+
+type ProbeFn = Box<dyn FnMut(&'static str, usize, &[u128])>;
+type TapFn = Box<dyn FnMut(&'static str, usize, usize, bool) -> bool>;
+
+thread_local! {
+    static PROBE: std::cell::RefCell<Option<ProbeFn>> = const { std::cell::RefCell::new(None) };
+    static TAP: std::cell::RefCell<Option<TapFn>> = const { std::cell::RefCell::new(None) };
+}
+
+/// Install (or remove) this thread's probe sink: `(name, party, values)`.
+pub fn set_probe(f: Option<ProbeFn>) {
+    PROBE.with(|p| *p.borrow_mut() = f);
+}
+
+/// Install (or remove) this thread's tap: `(name, party, index, value) -> value to use`.
+pub fn set_tap(f: Option<TapFn>) {
+    TAP.with(|t| *t.borrow_mut() = f);
+}
+
+pub(crate) fn probe(name: &'static str, party: usize, values: &[u128]) {
+    PROBE.with(|p| {
+        if let Some(f) = p.borrow_mut().as_mut() {
+            f(name, party, values)
+        }
+    });
+}
+
+pub(crate) fn tap_bit(name: &'static str, party: usize, index: usize, value: bool) -> bool {
+    TAP.with(|t| match t.borrow_mut().as_mut() {
+        Some(f) => f(name, party, index, value),
+        None => value,
+    })
+}
+
 // ---- chunked buffer ---------------------------------------------------------------------
 
 #[derive(Debug, Clone)]
